@@ -25,7 +25,7 @@ func VH_C08_schedules() {
 	dest := m.Root("dest")
 	nfiles := v.Param("FILES", 2)
 	mk := func(p string, class int, data []byte) *vh_memEntry {
-		return &vh_memEntry{stat: &types.Stat{Path: p, Mode: vh_modeFor(class, 0755), Uid: 1, Gid: 1, ModTime: vh_mtimeChoices[0], Size: int64(len(data))}, data: data}
+		return &vh_memEntry{stat: &types.Stat{Path: p, Mode: vh_modeFor(class, 0755), Uid: 1, Gid: 1, ModTime: vh_mtimes()[0], Size: int64(len(data))}, data: data}
 	}
 	view := &vh_memFS{walkErrAt: -1, readStep: 1, entries: []*vh_memEntry{
 		mk("d", vh_clsDir, nil),
